@@ -215,7 +215,7 @@ func (c *Cluster) execStep(st Step) {
 						}
 					}
 				}
-			case StepLossy:
+			case StepLossy, StepSlowLink:
 				st.Node = l.ID
 				st.Nodes = nil
 				for _, n := range c.Nodes {
@@ -266,6 +266,15 @@ func (c *Cluster) execStep(st Step) {
 			c.Net.setLossy(st.Node, to, int(st.A))
 		}
 		c.Stats.Partitions++
+	case StepSlowLink:
+		for _, o := range st.Nodes {
+			if st.B == 1 {
+				c.Net.setSlow(o, st.Node, st.A*1_000_000)
+			} else {
+				c.Net.setSlow(st.Node, o, st.A*1_000_000)
+			}
+		}
+		c.Stats.SlowLinks++
 	case StepCrash:
 		n := c.byID[st.Node]
 		if n == nil || n.Inc == nil {
@@ -276,8 +285,14 @@ func (c *Cluster) execStep(st Step) {
 			c.crashNode(n, "time")
 			return
 		}
-		// Crash at the k-th storage operation from now.
-		n.FS.CrashAt = n.FS.OpCount + st.B
+		// Crash at the k-th storage operation from now (A == 1), or at the k-th next storage
+		// operation of one kind (A == 2).
+		if st.A == 2 && st.Op != "" {
+			n.FS.CrashKind, n.FS.CrashKindLeft = st.Op, st.B
+			c.Stats.CrashAtOpKind++
+		} else {
+			n.FS.CrashAt = n.FS.OpCount + st.B
+		}
 		n.FS.CrashPh = int(st.C)
 		if st.C == simos.Torn {
 			n.FS.TornBytes = int(c.faultRng.Intn(64))
